@@ -22,7 +22,7 @@ D1 == <<"d", <<730120, 0, 0>>>>
 \* reverse order; strs / vals = the naming's own y labels
 Nm(i) ==
   CASE i = 0 -> [a |-> "a", b |-> "b", p |-> "p", y |-> "y", z |-> "z", grp |-> "grp", rev |-> FALSE,
-                 strs |-> {"u", "y", "p", ""}, vals |-> {VInt(1), VFlt(1, 1)}]
+                 strs |-> {"ab", "y", "p", ""}, vals |-> {VInt(1), VFlt(1, 1)}]
     [] i = 1 -> [a |-> "name", b |-> "me", p |-> "n", y |-> "am", z |-> "e", grp |-> "na", rev |-> FALSE,
                  strs |-> {"a", "me", "am", "nam"}, vals |-> {None, VInt(1)}]
     [] i = 2 -> [a |-> "n", b |-> "name", p |-> "names", y |-> "label", z |-> "value", grp |-> "group", rev |-> TRUE,
